@@ -372,36 +372,57 @@ def run(ctx):
         ctx.check("C11.R5", "the default error helper raises SchemaParseException unless told to ignore", ok, rd.where(), rd.name, "a bad default does not raise")
 
     # ---- R6 decimal guards -----------------------------------------------------------------------
-    ctx.rule("C11.R6", "four decimal raise sites whose guards depend on {scale}, {precision}, {precision, size}, {scale, precision}", floor=4)
-    role = {}
-    for n in walk_local(ps.node):
-        if isinstance(n, ast.Assign) and isinstance(n.targets[0], ast.Name):
-            v = norm(n.value)
-            for key in ("scale", "precision", "size"):
-                if v in (f"{R.parsed}.get('{key}')", f"{R.schema}.get('{key}')", f"{R.schema}['{key}']", f"{R.parsed}['{key}']"):
-                    role[n.targets[0].id] = key
-            if "math.log10(2)" in v:
-                role[n.targets[0].id] = "maxprec"
-    sites = []
-    for n in walk_local(ps.node):
-        if isinstance(n, ast.Raise) and n.exc is not None and "SchemaParseException" in norm(n.exc) and "decimal" in norm(n.exc):
-            deps = set()
-            for (t, lab) in cfg.guards_of(cfg.node_of(n)):
-                if t.kind == "test" and lab == "true":
-                    deps |= {role[x] for x in names_in(t.ast) if x in role}
-                    if "math.log10(2)" in norm(t.ast):
-                        deps |= {"maxprec"}
-                        deps.discard("size")
-            sites.append(deps)
-    if not sites:
-        ctx.unrecognised("C11.R6", "_parse_schema", ps.where(), "no decimal raise site found in _parse_schema (validation moved elsewhere)")
+    ctx.rule("C11.R6", "decimal annotations: decision table of the checks over representative (scale, precision, size, kind) values: negative or non-integer scale, non-positive or non-integer precision, precision beyond floor(log10(2) * (8*size - 1)) for a fixed, scale beyond precision are rejected; everything else passes", floor=12)
+    import math as _math
+
+    blocks = [n for n in walk_local(ps.node) if isinstance(n, ast.If) and "'decimal'" in norm(n.test) and "logicalType" in norm(n.test)]
+    if len(blocks) != 1:
+        ctx.unrecognised("C11.R6", "_parse_schema", ps.where(), f"{len(blocks)} blocks guarded by logicalType == 'decimal' (validation moved elsewhere)")
     else:
-        for w in ({"scale"}, {"precision"}, {"precision", "maxprec"}, {"scale", "precision"}):
-            ctx.check("C11.R6", f"a decimal raise guarded by {sorted(w)}", w in sites, ps.where(), f"_parse_schema decimal guards: {[sorted(g) for g in sites]}", f"no rejection depends on exactly {sorted(w)}")
-        mp = [n for n in ast.walk(ps.node) if isinstance(n, ast.Call) and norm(n.func) == "int" and "math.log10(2)" in norm(n)]
-        szv = [k for k, v in role.items() if v == "size"] + [f"{R.schema}['size']", f"{R.parsed}['size']"]
-        ok = len(mp) == 1 and any(norm(mp[0]) == f"int(math.floor(math.log10(2) * (8 * {sz} - 1)))" for sz in szv)
-        ctx.check("C11.R6", "max precision of a fixed decimal is floor(log10(2) * (8*size - 1))", ok, ps.where(mp[0]) if mp else ps.where(), f"_parse_schema: {[norm(x) for x in mp]}", "the precision a fixed size can hold is computed differently from the specification")
+        blk = blocks[0]
+        mods6 = [ps.mod] + [m for m in p.modules.values() if m is not ps.mod]
+        guards.HOOK["call"] = guards.program_call_evaluator(p, mods6)
+        guards.HOOK["value"] = guards.program_call_evaluator(p, mods6, want_value=True)
+
+        def decide(scale, precision, size, kind):
+            d = {"logicalType": "decimal", "type": kind}
+            if scale is not None:
+                d["scale"] = scale
+            if precision is not None:
+                d["precision"] = precision
+            if size is not None:
+                d["size"] = size
+            env = {R.parsed: dict(d), R.schema: dict(d), R.tvar: kind}
+            r = guards.run_chain(blk.body, env, {}, effects=[])
+            return {"raise": True, "fall": False, "return": False}.get(r[0])
+
+        def maxprec(size):
+            return int(_math.floor(_math.log10(2) * (8 * size - 1)))
+
+        table = [
+            ("scale -1", (-1, 5, 8, "fixed"), True),
+            ("scale 'x'", ("x", 5, None, "bytes"), True),
+            ("precision -1", (2, -1, None, "bytes"), True),
+            ("precision '5'", (2, "5", None, "bytes"), True),
+            ("scale 6 > precision 5", (6, 5, None, "bytes"), True),
+            ("scale 2, precision 5, bytes", (2, 5, None, "bytes"), False),
+            ("no scale, precision 5, bytes", (None, 5, None, "bytes"), False),
+            ("scale 5 = precision 5", (5, 5, None, "bytes"), False),
+        ]
+        for size in (1, 2, 8, 16):
+            table.append((f"fixed({size}) precision {maxprec(size)} (the most it holds)", (0, maxprec(size), size, "fixed"), False))
+            table.append((f"fixed({size}) precision {maxprec(size) + 1} (one too many)", (0, maxprec(size) + 1, size, "fixed"), True))
+        table.append(("bytes precision 100", (0, 100, None, "bytes"), False))
+        try:
+            for label, args, want in table:
+                got = decide(*args)
+                inst = f"decimal {label}: {'rejected' if want else 'accepted'}"
+                if got is None:
+                    ctx.unrecognised("C11.R6", inst, ps.where(blk), "the checks could not be evaluated on this representative")
+                else:
+                    ctx.check("C11.R6", inst, got == want, ps.where(blk), f"_parse_schema: decimal with {label} is {'rejected' if got else 'accepted'}", "the decimal annotation is checked differently from the specification (positive integer precision, non-negative integer scale not above the precision, precision that fits the fixed size)")
+        finally:
+            guards.HOOK["call"] = guards.HOOK["value"] = None
 
 
 REPS = (("null", None), ("boolean", True), ("string", "s"), ("int", 1), ("float", 1.5), ("list", []), ("dict", {}))
